@@ -153,8 +153,9 @@ func (p *HTTPPCS) serve(w http.ResponseWriter, r *http.Request) {
 	if step != "" {
 		code, ra := step, ""
 		for i := 0; i < len(step); i++ {
-			if step[i] == ':' {
+			if step[i] == ':' { // the FIRST colon: a Retry-After value may be an HTTP date
 				code, ra = step[:i], step[i+1:]
+				break
 			}
 		}
 		n, _ := strconv.Atoi(code)
